@@ -17,7 +17,7 @@ def lin_oracle(script, impl):
 def lin_nontrivial(script, impl):
     """a stress scenario that rotated the log at least once while >= 100 operations ran, or the deterministic D19 scenario"""
     for ws, out in _ops(script, impl):
-        if ws[0] == 'd19':
+        if ws[0] in ('d19',):
             return True
         m = re.search(r'ops=(\d+) .*walFiles=(\d+)', out)
         if m and int(m.group(1)) >= 100 and int(m.group(2)) >= 2:
